@@ -1,6 +1,7 @@
 import Mg.Basic
 import Bd.MergeSame
 import Bd.Rle
+import Bd.ConflictFree
 
 /-! # C07 — property theorems (statements only; proofs live in the family libraries) -/
 
@@ -57,6 +58,28 @@ theorem merged_nodes_pointwise :
     (flat (rle lines)).length = mine.length ∧
     ∀ i (hi : i < mine.length), (flat (rle lines))[i]? = some (Mg.resolve day mine[i] (transpose others i)).1 :=
   @Bd.merged_nodes_pointwise
+
+/-- conflict-free merge of one file (the file-level core of "merges reproduce the ground truth", shared with C01): when the
+copies have the length of the true array and at every line each copy holds the true value or the merge mark, the merged
+line is the true value wherever some copy knows it, and the merge value `day` where none does -/
+theorem mergeFile_conflict_free :
+    ∀ (day : Nat) (mine : List Nat) (others : List (List Nat)) (truth : List Nat)
+    (hlen : ∀ c ∈ mine :: others, c.length = truth.length)
+    (htruth : ∀ t ∈ truth, Mg.isMark t = false)
+    (hall : ∀ c ∈ mine :: others, ∀ i (hi : i < truth.length),
+      Mg.isMark (c.getD i 0) = true ∨ c.getD i 0 = truth[i]),
+    ∃ lines n, mergeFile day mine others = some (lines, n) ∧ lines.length = truth.length ∧
+      ∀ i (hi : i < truth.length),
+        (flat (rle lines))[i]? =
+          some (if ∃ c ∈ mine :: others, c.getD i 0 = truth[i] then truth[i] else day) :=
+  @Bd.mergeFile_conflict_free
+
+/-- per line: some copy knows the origin and no copy claims another one - the origin is kept and nothing is reported -/
+theorem resolve_known :
+    ∀ (day l : Nat) (ols : List Nat) (t : Nat) (ht : Mg.isMark t = false)
+    (hall : ∀ v ∈ l :: ols, Mg.isMark v = true ∨ v = t) (hone : t ∈ l :: ols),
+    Mg.resolve day l ols = (t, 0) :=
+  @Bd.resolve_known
 end
 
 end Props.C07
